@@ -14,12 +14,14 @@ def run(cmd, cwd):
     return p.returncode, (p.stdout + p.stderr)
 
 
-def compile_dir(od, incdirs=(), want=("c", "fortran", "python", "lua")):
+def compile_dir(od, incdirs=(), want=("c", "fortran", "python", "lua"), defines=()):
+    """defines: preprocessor definitions ('-DNAME') under which every file is compiled"""
     fails = []
     done = {"c": 0, "fortran": 0, "python": 0, "lua": 0, "skipped": 0}
     inc = []
     for d in list(incdirs) + [od]:
         inc += ["-I", d]
+    inc += list(defines)
     files = sorted(os.listdir(od))
     is_cxx = any(f.endswith((".cpp", ".hpp")) for f in files if not f.startswith(("py", "lua")))
     pyinc = sysconfig.get_paths()["include"]
@@ -72,7 +74,7 @@ def compile_dir(od, incdirs=(), want=("c", "fortran", "python", "lua")):
             fails.append({"file": f, "message": out.strip()[-700:]})
     if "fortran" in want:
         fs = [f for f in files if f.lower().endswith((".f", ".f90")) and f not in ("helpers.f",)]
-        base = ["gfortran", "-ffree-form", "-ffree-line-length-none", "-cpp", "-fsyntax-only", "-J", od]
+        base = ["gfortran", "-ffree-form", "-ffree-line-length-none", "-cpp", "-fsyntax-only", "-J", od] + list(defines)
         for _ in range(3):
             for f in fs:
                 run(base + [f], od)
